@@ -138,6 +138,74 @@ def route_run(route, user, password_try):
         env.close()
 
 
+def replay_probe():
+    """a complete, successful login conversation recorded on one connection and replayed byte for byte on another one must be
+    refused - whatever plugin the server announces in its greeting (the account's, a clear-password plugin whose greeting data
+    is a constant filler, no-login), whatever plugin the client names (the account's, another one, none)"""
+    native = NativePasswordAuthPlugin()
+
+    class ClearP(AbstractClearPasswordAuthPlugin):
+        name = "corp_clear_password"
+
+        async def check(self, username, password):
+            return username if password == "clearpw" else None
+    target = User(name="target", auth_string=NativePasswordAuthPlugin.create_auth_string("s3cret"), auth_plugin=native.name)
+    n = 0
+    for cfgname, plugins in (("native-default", [native, NoLoginAuthPlugin()]), ("clear-default", [ClearP(), native]), ("nologin-default", [NoLoginAuthPlugin(), native])):
+        for announced in (b"mysql_native_password", b"caching_sha2_password", b""):
+            recorded, outcomes, nonces = [], [], []
+            for attempt in ("record", "replay"):
+                env = impl.Env(own_sleep=False)
+                try:
+                    srv = impl.make_server(env, lambda: impl.ScriptSession(env, 0), identity_provider=IP({"target": target}, plugins))
+                    c = impl.Conn(env, srv)
+                    env.settle()
+                    hs = cl.parse_handshake_v10(cl.reassemble(c.take())[0][1])
+                    nonces.append(hs["nonce"])
+                    if attempt == "record":
+                        frames = [(cl.handshake_response(user=b"target", auth=cl.native_scramble(b"s3cret", hs["nonce"]), plugin=announced), 1)]
+                    else:
+                        frames = list(recorded)
+                    pk, k = [], 0
+                    while True:
+                        if attempt == "record":
+                            payload, seq = frames[-1]
+                        else:
+                            if k >= len(frames):
+                                break
+                            payload, seq = frames[k]
+                        k += 1
+                        if c.blocked_on() == "done":
+                            break
+                        c.feed(cl.frame(payload, seq))
+                        pk = cl.reassemble(c.take())
+                        if not pk or pk[-1][1][:1] in (b"\x00", b"\xff"):
+                            break
+                        if attempt == "record":
+                            body = pk[-1][1]
+                            if body[:1] == b"\xfe":                 # auth switch: plugin name, data
+                                i = body.index(0, 1)
+                                data = body[i + 1:].rstrip(b"\0")
+                            else:                                     # more data
+                                data = body[1:].rstrip(b"\0")
+                            frames.append((cl.native_scramble(b"s3cret", data), (pk[-1][0] + 1) % 256))
+                            if len(frames) > 4:
+                                break
+                    outcomes.append(bool(pk) and pk[-1][1][:1] == b"\x00")
+                    if attempt == "record":
+                        recorded = frames
+                    n += 1
+                finally:
+                    env.close()
+            if not outcomes[0]:
+                return dict(kind="replay", problem="the right password was refused", greeting_plugin=cfgname, client_names=announced.decode()), n
+            if outcomes[1]:
+                return dict(kind="replay", problem="a login conversation recorded on one connection was accepted when replayed on another one",
+                            greeting_plugin=cfgname, client_names=announced.decode(), client_frames=[p.hex()[:80] for p, _ in recorded],
+                            greeting_data=[x.hex() for x in nonces]), n
+    return None, n
+
+
 def run(ctx: core.Ctx):
     rng = ctx.rng
     pr = core.check_proofs(ctx, "Props/C02", headers=[HEADER])
@@ -272,6 +340,10 @@ def run(ctx: core.Ctx):
                 nroute += 1
                 if ok:
                     witness = witness or dict(kind="route-undecodable-account", route=route, auth_string=bad, password_try=attempt.decode(), accepted=True)
+    rp, nrp = replay_probe()
+    nroute += nrp
+    if rp and witness is None:
+        witness = rp
     ctx.evals += nroute
 
     # ---- clear password and no-login ---------------------------------------------------------------------------------
